@@ -288,9 +288,25 @@ fn api_func(name: &str, args: &[SimpleExpr]) -> Option<FunctionCall> {
         "round" => one(|x| Func::round(x)),
         "md5" => one(|x| Func::md5(x)),
         "ifnull" if args.len() == 2 => Some(Func::if_null(args[0].clone(), args[1].clone())),
-        "greatest" => Some(Func::greatest(args.to_vec())),
-        "least" => Some(Func::least(args.to_vec())),
-        "coalesce" => Some(Func::coalesce(args.to_vec())),
+        // the argument list as a Vec, or as an iterator whose size_hint is not exact (filter / flatten / chain)
+        "greatest" | "least" | "coalesce" => {
+            let v = args.to_vec();
+            let mk = |name: &str, it: Box<dyn Iterator<Item = SimpleExpr>>| match name {
+                "greatest" => Func::greatest(it),
+                "least" => Func::least(it),
+                _ => Func::coalesce(it),
+            };
+            Some(match format!("{:?}", args).len() % 4 {
+                0 => mk(name, Box::new(v.into_iter())),
+                1 => mk(name, Box::new(v.into_iter().filter(|_| true))),
+                2 => mk(name, Box::new(v.into_iter().map(Some).flatten())),
+                _ => {
+                    let mut it = v.into_iter();
+                    let first = it.next();
+                    mk(name, Box::new(first.into_iter().chain(it.filter(|_| true))))
+                }
+            })
+        }
         "random" if args.is_empty() => Some(Func::random()),
         "round" if args.len() == 2 => Some(Func::round_with_precision(args[0].clone(), args[1].clone())),
         // DATE_TRUNC('<unit>', e): the unit is spelled by Display for PgDateTruncUnit
@@ -523,7 +539,11 @@ pub fn expr(s: &S) -> SimpleExpr {
             } else {
                 (funcs().into_iter().find(|(_, n, _)| *n == name).expect("func").2)()
             };
-            SimpleExpr::FunctionCall(fc.args(args))
+            if shash(s) % 3 == 2 {
+                SimpleExpr::FunctionCall(fc.args(args.into_iter().filter(|_| true)))
+            } else {
+                SimpleExpr::FunctionCall(fc.args(args))
+            }
         }
         "countdistinct" => match shash(s) % 3 {
             0 => SimpleExpr::FunctionCall(Func::count_distinct(expr(&l[0]))),
